@@ -447,6 +447,17 @@ func ifBodyHas(rel, fn, condPart, stmt string) bool {
 	return found
 }
 
+// funcText is the printed body of a function.
+func funcText(rel, fn string) string {
+	fd := findFunc(rel, fn)
+	if fd == nil {
+		fatal("function %s not found in %s", fn, rel)
+	}
+	var buf bytes.Buffer
+	printer.Fprint(&buf, token.NewFileSet(), fd.Body)
+	return buf.String()
+}
+
 func (o *out) boolean(name string, v bool, doc string) {
 	fmt.Fprintf(&o.b, "/-- %s -/\ndef %s : Bool := %v\n", doc, name, v)
 }
@@ -589,6 +600,9 @@ func main() {
 		"`OpenTransaction` takes the write-lock token back on its error returns")
 	o.boolean("lkLargeBatchDiscardsOnCommitError", ifBodyHas("leveldb/db_write.go", "DB.Write", "tr.Commit()", "tr.Discard()"),
 		"`DB.Write` discards the internal transaction when its commit fails")
+	o.boolean("roCompactionParks", strings.Count(funcText("leveldb/db_compaction.go", "DB.tCompaction"), "atomic.LoadUint32(&db.compReadOnly)") >= 2 &&
+		strings.Contains(funcText("leveldb/db_write.go", "DB.SetReadOnly"), "atomic.StoreUint32(&db.compReadOnly, 1)"),
+		"`tCompaction` consults the read-only flag set by `SetReadOnly` at the top of its loop and before executing a command")
 	o.boolean("lkSetReadOnlyReleasesOnClose", countStmts("leveldb/db_write.go", "DB.SetReadOnly", "<-db.writeLockC") >= 1,
 		"`SetReadOnly` gives the write-lock token back when it gives up because the DB is closing")
 
